@@ -4804,6 +4804,15 @@ bool SGXMLScanner::laxElementValidation(QName* element, ContentLeafNameTypeVecto
             return laxThisOne;
         }
 
+        unsigned int nextLoop = 0;
+        if(!cm->handleRepetitions(element, currState, currLoop, nextState, nextLoop, i, &comparator)) {
+            fElemState[parentElemDepth] = XMLContentModel::gInvalidTrans;
+            fElemLoopState[parentElemDepth] = 0;
+            return laxThisOne;
+        }
+
+        // i is now the leaf that takes the element, which is a later one
+        // when the occurrence counter of the first match was used up
         ContentSpecNode::NodeTypes type = cv->getLeafTypeAt(i);
         if ((type & 0x0f) == ContentSpecNode::Any ||
             (type & 0x0f) == ContentSpecNode::Any_Other ||
@@ -4821,7 +4830,7 @@ bool SGXMLScanner::laxElementValidation(QName* element, ContentLeafNameTypeVecto
             }
         }
         fElemState[parentElemDepth] = nextState;
-        fElemLoopState[parentElemDepth] = currLoop;
+        fElemLoopState[parentElemDepth] = nextLoop;
     } // if
 
     if (skipThisOne) {
